@@ -1497,7 +1497,9 @@ def istypealiastype(t: tp.Any) -> compat.TypeIs[compat.TypeAliasType]:
 def unwrap(t: tp.Any) -> tp.Any:
     lt = None
     while lt is not t:
-        if should_unwrap(t):
+        # `should_unwrap` sees through NewTypes and aliases, which have no `__args__`
+        #   themselves (they are peeled below), and a bare `Final`/`ClassVar` has none.
+        if should_unwrap(t) and getattr(t, "__args__", ()):
             lt = t
             t = t.__args__[0]
             continue
